@@ -3,6 +3,8 @@
      I = <ea><ev>:<asset hex32>:<abf hex32>:<value dec>:<vbf hex32>:<iss>      (the spent output, opened)
          ea/ev = 1 if the spent output's asset/value is explicit on chain, 0 if it is the commitment the secrets open
          iss = "-" | <amount>,<keys>,<asset id hex32>,<token id hex32>,<i|r>   amount/keys = "n" (null) | decimal (explicit)
+                                                                                | c<dec>.<vbf hex32> (confidential: dec·H_id + vbf·G)
+               (the two ids are derived by the HARNESS from the protocol's formulas, not through TxIn::issuance_ids())
      O = <asset hex32>:<value dec>:<script hex|->:<nonce>   nonce = "n" null | "e" explicit | receiver blinding SECRET key hex32
    result: "ok blinds=<i:abf:vbf:esk,..> verify=<verdict> unblind=<i:asset:value:abf:vbf | i:err:<e>,..>"
          | "err <BlindError>" | "panic"
@@ -40,13 +42,22 @@ Definition colons (s : bytes) : list bytes := split_on x3a s [].
 Definition commas (s : bytes) : list bytes := if bytes_eqb s "-"%lb then [] else split_on x2c s [].
 Definition is1 (b : byte) : bool := byte_eqb b x31.
 
-Definition parse_amount (s : bytes) : option cvalue :=
-  if bytes_eqb s "n"%lb then Some VNull else match zdec s with Some v => Some (VExp v) | None => None end.
+(* an issuance amount of the asset `id`: "n" null | <dec> explicit | c<dec>.<vbf hex32> CONFIDENTIAL, the commitment dec·H_id + vbf·G *)
+Definition parse_amount (id : N) (s : bytes) : option cvalue :=
+  if bytes_eqb s "n"%lb then Some VNull else
+  match s with
+  | x63 :: r => match split_on x2e r [] with
+                | [v; vbf] => match zdec v, zhex vbf with Some v, Some vbf => Some (VConf (commit v (gH id) vbf)) | _, _ => None end
+                | _ => None end
+  | _ => match zdec s with Some v => Some (VExp v) | None => None end
+  end.
 Definition parse_iss (s : bytes) : option issuance :=
   if bytes_eqb s "-"%lb then Some null_issuance else
   match split_on x2c s [] with
-  | [a; k; ai; ti; _] => match parse_amount a, parse_amount k, nhex ai, nhex ti with
-                      | Some a, Some k, Some ai, Some ti => Some (mkIss a k ai ti) | _, _, _, _ => None end
+  | [a; k; ai; ti; _] => match nhex ai, nhex ti with
+                         | Some ai, Some ti => match parse_amount ai a, parse_amount ti k with
+                                               | Some a, Some k => Some (mkIss a k ai ti) | _, _ => None end
+                         | _, _ => None end
   | _ => None end.
 (* an opened spent output: the txout as it is on chain + the secrets + the issuance of the spending input *)
 Definition parse_in (s : bytes) : option (txout * secrets * txin) :=
@@ -75,8 +86,17 @@ Definition parse_out (s : bytes) : option (txout * option Z) :=
 
 (* the secrets list Transaction::blind is given: each spent output followed by its explicit issuance pseudo-inputs,
    i.e. the order in which verify_tx_amt_proofs builds its domain *)
+(* the secrets of the issuance pseudo-inputs, confidential amounts included: in the ideal world the opening of amount·H_id + vbf·G
+   is read off the formal commitment (its H_id- and G-coefficients) *)
+Definition open_iss (id : N) (v : cvalue) : list secrets :=
+  match v with
+  | VExp x => [mkSec id 0 x 0]
+  | VConf c => [mkSec id 0 (coeff c (kH id)) (coeff c kG)]
+  | VNull => [] end.
+Definition iss_secrets_open (i : txin) : list secrets :=
+  if has_issuance i then open_iss (is_asset (in_iss i)) (is_amount (in_iss i)) ++ open_iss (is_token (in_iss i)) (is_keys (in_iss i)) else [].
 Definition all_secrets (l : list (txout * secrets * txin)) : list secrets :=
-  flat_map (fun e => snd (fst e) :: iss_secrets (snd e)) l.
+  flat_map (fun e => snd (fst e) :: iss_secrets_open (snd e)) l.
 
 Record c04case := mkCase { cs_prof : profile; cs_spent : list txout; cs_secrets : list secrets; cs_tx : tx;
                            cs_keys : list (option Z); cs_rnd : list Z }.
